@@ -1427,16 +1427,5 @@ def exFinal : Cfg Sh Th :=
 example : exFinal.sh.reports = [1, 1, 0] ∧ exFinal.sh.completed = [1, 1, 0] ∧ exFinal.sh.trigger = 0 := by
   decide
 
-#print axioms event_wakeup_invariant
-#print axioms event_no_lost_wakeup_or_notified
-#print axioms event_no_lost_wakeup_partial
-#print axioms event_notified_implies_signal_partial
-#print axioms event_counting_conservation
-#print axioms event_bitset_merged_not_dropped
-#print axioms event_no_phantom
-#print axioms event_completed_le_activations
-#print axioms event_lost_wakeup_reachable
-#print axioms event_no_lost_wakeup_refuted
-#print axioms event_notified_implies_signal_refuted
 
 end Iox2.C05
